@@ -431,8 +431,12 @@ func redactPipelineStage(stage interface{}, redactFieldNames bool, keyPath []str
 					continue
 				case Pipeline:
 					if arr, ok := v.([]any); ok {
-						isSelectivelyRedactable := isRedactableFieldPatternInArray(arr)
-						newMap.Set(redactedKey, redactArrayValues(arr, redactFieldNames, inSearchStage, isSelectivelyRedactable, newKeyPath))
+						// a sub-pipeline is a pipeline: every stage is walked like a top-level stage
+						subPipeline := make([]any, len(arr))
+						for i, stage := range arr {
+							subPipeline[i] = redactPipelineStage(stage, redactFieldNames, []string{}, isInSearchStage(stage))
+						}
+						newMap.Set(redactedKey, subPipeline)
 					} else if vMap, ok := v.(*orderedmap.OrderedMap[string, any]); ok {
 						// Redact each key in the ordered map with redactPipelineStage:
 						newPipelineMap := orderedmap.NewOrderedMap[string, any]()
@@ -543,8 +547,12 @@ func redactPipelineStage(stage interface{}, redactFieldNames bool, keyPath []str
 									continue
 								case Pipeline:
 									if arr, ok := subV.([]any); ok {
-										isSelectivelyRedactable := isRedactableFieldPatternInArray(arr)
-										newSubMap.Set(subK, redactArrayValues(arr, redactFieldNames, inSearchStage, isSelectivelyRedactable, newKeyPath))
+										// a sub-pipeline is a pipeline: every stage is walked like a top-level stage
+										newPipeline := make([]any, len(arr))
+										for i, stage := range arr {
+											newPipeline[i] = redactPipelineStage(stage, redactFieldNames, []string{}, isInSearchStage(stage))
+										}
+										newSubMap.Set(subK, newPipeline)
 									} else {
 										newSubMap.Set(subK, subV)
 									}
